@@ -12,6 +12,7 @@ R08.3 the slot of the current frame carries a receive time taken during THIS upd
 R08.4 the slot index is the CPR format bit 54, the stored fields are bits 55-71 / 72-88;
 R08.5 the NL table equals the closed form of DO-260B (58 boundaries), is strictly increasing and is used with `<`, default 1;
 R08.6 a position is produced only if the two latitude zones agree (NL(lat0) == NL(lat1));
+R08.8 the distance is stored under exactly the conditions of the position store (+ observer configured);
 R08.7 observer: distance = haversine(row lat, row lon, observer lat, observer lon) with R = 6371; 'lat,lon' parsed in order.
 """
 import math
@@ -45,14 +46,15 @@ def run(facts, rep, tier):
     rep.trusted = ["rustc MIR", "E2 path-condition terms", "chrono model (signed_duration_since/num_seconds)", "DO-260B NL closed form (in the rule)"]
     for rid, txt, k in [("R08.1", "position stores only under the pairing / range guards", "P"), ("R08.2", "10 s window term", "P"),
                         ("R08.3", "slot time = receive time of this update", "P"), ("R08.4", "slot index = bit 54; fields 55-71 / 72-88", "P"),
-                        ("R08.5", "NL table == closed form", "P"), ("R08.6", "zone equality guards the result", "N"), ("R08.7", "observer / haversine wiring", "N")]:
+                        ("R08.5", "NL table == closed form", "P"), ("R08.6", "zone equality guards the result", "N"), ("R08.7", "observer / haversine wiring", "N"),
+                        ("R08.8", "distance stored whenever the position is (given an observer)", "N")]:
         rep.rule(rid, txt, k)
     out = k2_results(facts, tier)
     results = out["results"]
     P = sel(results, "P")
     if len(P) < 8:
         raise Broken("C08: position contexts missing")
-    n1 = n2 = n3 = n4 = 0
+    n1 = n2 = n3 = n4 = n8 = 0
     for r in P:
         if not accepted(r):
             raise Broken("C08: %s not accepted" % r.ctx["label"])
@@ -136,6 +138,30 @@ def run(facts, rep, tier):
                     if not ok6:
                         rep.add(Finding("R08.6", "position not guarded by zone equality (%s path)" % path_,
                                         "context '%s': no NL(lat_even) == NL(lat_odd) test dominates the position" % lab, None))
+        # R08.8: the distance follows the position: it is stored under the conditions of the lat/lon store plus, at most,
+        # "an observer is configured" - never under a further test (moved-enough thresholds, "only if still unknown", ...)
+        lat_sts = [(pth, v, pc, ctl) for pth, v, pc, ctl in r.stores if pth and pth[0][1] == "lat"]
+        for pth, v, pc, ctl in r.stores:
+            if not (pth and pth[0][1] == "distance_from_observer"):
+                continue
+            n8 += 1
+            best = None
+            for _, _, lpc, lctl in lat_sts:
+                extra = [(t, tr) for t, tr in pc if (t, tr) not in lpc]
+                cextra = sorted(str(d[1] if d and d[0] == "ctl" else d) for d in (ctl or ()) if d not in (lctl or ())
+                                and "observer" not in str(d))
+                if best is None or len(extra) + len(cextra) < len(best[0]) + len(best[1]):
+                    best = (extra, cextra)
+            extra, cextra = best or ([], [])
+            bad = [show_term(t)[:100] + ("" if tr else " is false") for t, tr in extra if not (t[0] == "Eq" and tr and term_find(t, "discr"))]
+            ndis = len([1 for t, tr in extra if t[0] == "Eq" and tr and term_find(t, "discr")])
+            ok = not bad and ndis <= 1 and bool(lat_sts) and not cextra
+            rep.oblige(ok, ("distance-follows", lab))
+            if not ok:
+                what = bad or (["control-dependent on %s" % ", ".join(cextra[:4])] if cextra else ["%d option tests" % ndis])
+                rep.add(Finding("R08.8", "distance not refreshed with every position (%s path)" % path_,
+                                "context '%s': distance_from_observer is stored only under extra conditions (%s) beyond those of the position itself: "
+                                "the distance column can lag behind the shown position" % (lab, "; ".join(what[:3])), None))
         # R08.4
         for f, sb, eb in (("cpr_lat", 55, 71), ("cpr_lon", 72, 88)):
             sts = stores_of(r, f)
@@ -160,6 +186,7 @@ def run(facts, rep, tier):
     rep.instances("R08.2", n2, floor=8)
     rep.instances("R08.3", n3, floor=8)
     rep.instances("R08.4", n4, floor=16)
+    rep.instances("R08.8", n8, floor=8)
     rep.instances("R08.6", n2, floor=8)
 
     # ---- R08.5 NL table (E4)
